@@ -461,8 +461,87 @@ func c16Plan(tier string) (enumBatches, lexRandom, progs int) {
 	return
 }
 
+// c16DeepNesting: composition chains that run into the engine's nesting limit (distinct templates, cycles, through
+// include / extends / import / ssi parsed, at compile time and at execution time). The error names a template that was
+// really loaded, and a position it carries lies in that template's source at the reported token.
+func c16DeepNesting(c *C) {
+	r := c.R
+	kind := r.Pick([]string{"include", "lazy-include", "extends", "import", "ssi"})
+	cycle := r.Intn(3) // 0: chain of distinct templates, 1: a <-> b, 2: a -> b -> c -> a
+	n := 1100
+	if cycle > 0 {
+		n = cycle + 1
+	}
+	files := map[string]string{}
+	name := func(i int) string { return fmt.Sprintf("/d/t%d.tpl", i) }
+	for i := 0; i < n; i++ {
+		next := name((i + 1) % n)
+		if cycle == 0 && i == n-1 {
+			files[name(i)] = "end of the chain"
+			break
+		}
+		pad := strings.Repeat("pad\n", i%3) + strings.Repeat(" ", i%5)
+		switch kind {
+		case "include":
+			files[name(i)] = pad + `{% include "` + next + `" %}`
+		case "lazy-include":
+			files[name(i)] = pad + `{% include nextname` + fmt.Sprint((i+1)%n) + ` %}`
+		case "extends":
+			files[name(i)] = `{% extends "` + next + `" %}` + pad
+		case "import":
+			files[name(i)] = pad + `{% import "` + next + `" mm %}{% macro mm() export %}{% endmacro %}`
+		default:
+			files[name(i)] = pad + `{% ssi "` + next + `" parsed %}`
+		}
+	}
+	ctx := pongo2.Context{}
+	for i := 0; i < n; i++ {
+		ctx["nextname"+fmt.Sprint(i)] = name(i)
+	}
+	set, loader := newSet(files)
+	var pe *pongo2.Error
+	phase := "compile"
+	tpl, err := set.FromFile(name(0))
+	c.Eval(1)
+	if err == nil {
+		phase = "execute"
+		_, err = tpl.Execute(ctx)
+	}
+	if err == nil {
+		c.Fail("error-position", D{"kind": "nesting-limit/" + kind, "why": "no error although the chain is deeper than any plausible limit (or cyclic)"})
+		return
+	}
+	pe, ok := err.(*pongo2.Error)
+	if !ok {
+		c.Fail("error-position", D{"kind": "nesting-limit/" + kind, "why": "error is not a *pongo2.Error: " + err.Error()})
+		return
+	}
+	_, hits := loader.snapshotGets()
+	loaded := map[string]bool{}
+	for _, h := range hits {
+		loaded[h] = true
+	}
+	d := D{"kind": "nesting-limit/" + kind, "shape": []string{"chain of 1100 distinct templates", "cycle of 2", "cycle of 3"}[cycle], "phase": phase, "error": c16ErrSummary(pe), "templates_loaded": len(loaded)}
+	if pe.Filename == "" || !loaded[pe.Filename] {
+		d["why"] = fmt.Sprintf("the error names %q, a template that was never loaded", pe.Filename)
+		c.Fail("error-position", d)
+		return
+	}
+	if why, _ := c16JudgeError(c16Obs{err: pe, phase: phase}, files); why != "" {
+		d["why"] = why
+		c.Fail("error-position", d)
+		return
+	}
+	c.Cover("nesting_limit_" + kind)
+	c.Nontrivial(fmt.Sprint("nest", kind, cycle))
+}
+
 func c16Run(c *C) {
 	eb, lr, _ := c16Plan(c.Tier)
+	if c.Idx >= eb+lr && (c.Idx-eb-lr)%400 == 7 {
+		c16DeepNesting(c)
+		return
+	}
 	switch {
 	case c.Idx < eb:
 		lo := c.Idx * c16Batch
